@@ -447,9 +447,11 @@ def step (cfg : Cfg) (s : State) : Label → Option State
                         creq := upd s.creq (.root r) false }
         else none
       | .killer =>
-        -- `finally:` spawn an exit stopper per running daemon, `await scheduler.wait()`
-        if s.creq (.root r) = true ∧ fail = false then
-          some { s with st := upd s.st (.root r) (.stopping false (some (s.now + cfg.D))),
+        -- `finally:` spawn an exit stopper per running daemon, `await scheduler.wait()`.
+        -- `fail`: the loop over `running_daemons` raises — a daemon that exits meanwhile deletes itself
+        -- from that dict ("dictionary changed size during iteration", finding C20-F4)
+        if s.creq (.root r) = true then
+          some { s with st := upd s.st (.root r) (.stopping fail (some (s.now + cfg.D))),
                         creq := upd s.creq (.root r) false, killed := true }
         else none
       | .orchestrator =>
@@ -487,7 +489,7 @@ def step (cfg : Cfg) (s : State) : Label → Option State
           if how = .cancelled ∧ s.creq (.root r) = true then some { fin with killed := true }
           else if how = .failed then some fin
           else none
-        | .stopping _ _ => if how = .cancelled then some fin else none
+        | .stopping f _ => if how = failTS f then some fin else none
         | _ => none
       | .observer =>
         if noLiveWorkerOf s (.root r) = true then
